@@ -207,8 +207,11 @@ def r12c(run):
                 and "list(value)" in unparse(n.ast.value):
             total += 1
             # preceded by: if no_data_loss and len(value) > 1: raise
-            ok = any(isinstance(a, ast.BoolOp) and not p and "no_data_loss" in unparse(a) and "len(value) > 1" in unparse(a)
-                     for a, p in fa.facts.atoms_at(n))
+            # the clause {not no_data_loss, not len(value) > 1} holds (written `not (ndl and len > 1)` or
+            # `not ndl or len <= 1`), or a unit clause that implies it
+            from ..lib import clauses_at
+            ok = any(all(not pol and ("no_data_loss" in t or t == "len(value) > 1") for t, pol in cl)
+                     for cl in clauses_at(fa, n))
             run.check("R12c", f, "a multi-element collection never collapses to its first element under no_data_loss", ok,
                       construct="ungated lossy step: collection collapse",
                       message=f"_attempt_from: `{norm_stmt(n.ast)}` is not preceded by the `no_data_loss and len(value) > 1` "
@@ -330,8 +333,9 @@ def r12c(run):
     run.floor("R12c", "element extraction in transform_dataclass", len(takes), 1)
     for n in takes:
         total += 1
-        ok = any(isinstance(a, ast.BoolOp) and not p and "no_data_loss" in unparse(a) and f"len({d}) > 1" in unparse(a)
-                 for a, p in ga.facts.atoms_at(n))
+        from ..lib import clauses_at
+        ok = any(all(not pol and ("no_data_loss" in t or t == f"len({d}) > 1") for t, pol in cl)
+                 for cl in clauses_at(ga, n))
         run.check("R12c", g, "a multi-element list never collapses to one data-class instance under no_data_loss", ok,
                   construct="ungated lossy step: list collapse to data class",
                   message=f"transform_dataclass: `{norm_stmt(n.ast)}` can run for a list of several items with "
